@@ -115,6 +115,21 @@ assert all(len(set(lb["layers"])) == len(lb["layers"]) and len(set(lb["nodes"]))
 # what the text format can carry unchanged: JSON numbers / strings as labels, numbers / strings / null as layer names
 JSON_OK = [all(type(x) in (int, float, str) for x in lb["nodes"]) and all(type(x) in (int, float, str, type(None)) for x in lb["layers"])
            for lb in LABELINGS]
+
+
+def _orderable(xs):
+    try:
+        for a in xs:
+            for b in xs:
+                a < b
+        return True
+    except TypeError:
+        return False
+
+
+# extension round: expose_attributes_for_hashing sorts (node tuple, layer) keys - asked where the layer names can be ordered
+LAYERS_ORDERABLE = [_orderable(lb["layers"]) for lb in LABELINGS]
+LAYERS_MONOTONE = [o and sorted(lb["layers"]) == lb["layers"] for o, lb in zip(LAYERS_ORDERABLE, LABELINGS)]
 # reserved metadata fields written by the text format (tokens of the model): "layer" -> 200 : 300 + rank, "weight" -> 201 : 400 + quanta
 F_LAYER, F_WEIGHT, T_LAYER, T_WEIGHT = 200, 201, 300, 400
 
@@ -375,6 +390,13 @@ class Oracle:
         if t in ("overlap", "overlapin"):
             e = frozenset(q[1])
             return str(sum(v[0] for (e2, _), v in self.E.items() if e2 == e))
+        if t == "hashview":
+            # expose_attributes_for_hashing in the statement's terms: flag, hypergraph metadata, the entries of the map in key
+            # order (node tuple, then layer), the nodes in label order - ORDERED listings
+            es = sorted((sorted(e), l, v[0], fmeta(v[1].items())) for (e, l), v in self.E.items())
+            return "#".join(["1" if self.w else "0", items(f"{k};{v}" for k, v in self.hm.items()),
+                             "|".join(f"{l};{fnats(e)};{w};{md}" for e, l, w, md in es) or "-",
+                             "|".join(f"{n};{fmeta(self.N[n].items())}" for n in sorted(self.N)) or "-"])
         raise AssertionError(q)
 
 
@@ -555,6 +577,7 @@ class Real:
         self.ll = lab["layers"]
         self.nrank = {x: i for i, x in enumerate(self.nl)}
         self.lrank = {x: i for i, x in enumerate(self.ll)}
+        self.lmono = LAYERS_MONOTONE[LABELINGS.index(lab)]
         self.stats = {}
         self.sty = sty
         self.qs = random.Random(sty * 7919 + 13)
@@ -903,6 +926,40 @@ class Real:
             return fq(call(edge_overlap, [h, self.E(q[1], rs)], [], rs, ["h", "edge"]))
         if t == "dumpkeys":
             return items(str(k) for k in h.expose_data_structures())
+        if t == "hashview":
+            d = h.expose_attributes_for_hashing()
+            if set(d) != {"type", "weighted", "hypergraph_metadata", "edges", "nodes"} or d["type"] != "MultiplexHypergraph":
+                return "weird-keys"
+            es, ns = d["edges"], d["nodes"]
+            if any(set(x) != {"nodes", "weight", "metadata"} for x in es) or any(set(x) != {"node", "metadata"} for x in ns):
+                return "weird-items"
+            # the listing must be ascending in Python's own order (asked only where the layer names are mutually orderable)
+            for a, b in zip(es, es[1:]):
+                if not a["nodes"] < b["nodes"]:
+                    return "unsorted-edges"
+            for a, b in zip(ns, ns[1:]):
+                if not a["node"] < b["node"]:
+                    return "unsorted-nodes"
+            if any(list(x["nodes"][0]) != sorted(x["nodes"][0]) for x in es):
+                return "uncanonical"
+            rows = [([self.rn(x) for x in e["nodes"][0]], self.rl(e["nodes"][1]), fq(e["weight"]), fmeta(self.r_md(e["metadata"])))
+                    for e in es]
+            if any(type(x["nodes"]) is not tuple or type(x["nodes"][0]) is not tuple for x in es):
+                return "weird-key-type"
+            if [r[:2] for r in rows] != sorted(r[:2] for r in rows) and self.lmono:
+                return "unsorted-by-rank"
+            rows.sort(key=lambda r: r[:2])
+            fl = "1" if d["weighted"] is True else ("0" if d["weighted"] is False else "weird")
+            return "#".join([fl, items(f"{k};{v}" for k, v in self.r_hmd(d["hypergraph_metadata"])),
+                             "|".join(f"{l};{fnats(e)};{w};{md}" for e, l, w, md in rows) or "-",
+                             "|".join(f"{self.rn(x['node'])};{fmeta(self.r_md(x['metadata']))}" for x in ns) or "-"])
+        if t in ("edgetable", "adjtable"):
+            # record ids by their rank among the live ids (the harness registers a layer in the MODEL by a throw-away record)
+            live = sorted(h.get_edge_list().values())
+            rk = {i: j for j, i in enumerate(live)}
+            if t == "edgetable":
+                return items(f"{self.rkey(k)};{rk[i]}" for k, i in h.get_edge_list().items())
+            return items(f"{self.rn(n)};{fnats(rk.get(i, f'dangling{i}') for i in ids)}" for n, ids in h.get_adj_dict().items())
         st, a = self.agg()
         if st != "ok":
             return "rej"
@@ -1153,6 +1210,75 @@ def w_op(op):
     if t == "delattre":
         return f"delattre {hgxv.enc_list(op[1])} {op[2]} {op[3]}"
     raise AssertionError(op)
+
+
+def bad_ctor(case, rs):
+    """constructor arguments that must be refused: [kind, raws, ls, ws, mds, i]"""
+    pool, nl = case["pool"], case["nl"]
+    k = rs.randint(1, 3)
+    raws = [list(rs.choice(pool)) for _ in range(k)]
+    ls = [rs.randrange(nl) for _ in range(k)]
+    seen, keep = set(), []
+    for r, l in zip(raws, ls):
+        if (tuple(r), l) not in seen:
+            seen.add((tuple(r), l))
+            keep.append((r, l))
+    raws, ls = [r for r, _ in keep], [l for _, l in keep]
+    k = len(raws)
+    wgiven = case["weighted"] or rs.random() < 0.4
+    ws = [rs.choice([2, 4, 4, 6]) for _ in raws] if (wgiven and rs.random() < 0.6) else None
+    mds = [gen_md(rs, 0) for _ in raws] if rs.random() < 0.3 else None
+    kind = rs.choice(["embbad", "seplen", "seplen", "wlen", "dup", "mdshort"])
+    i = 0
+    if kind == "embbad":
+        i = rs.randrange(k)
+    elif kind == "seplen":
+        ls = ls + [rs.randrange(nl)] if rs.random() < 0.5 else ls[:-1]
+        if mds is not None and len(ls) > k:
+            pass
+    elif kind == "wlen":
+        ws = [4] * (k + rs.choice([-1, 1]))
+    elif kind == "dup":
+        j = rs.randrange(k)
+        raws, ls = raws + [list(raws[j])], ls + [ls[j]]
+        ws = [rs.choice([2, 4, 6]) for _ in raws]
+        mds = None if mds is None else mds + [[]]
+    else:
+        mds = [gen_md(rs, 0) for _ in range(k - 1)]
+    return [kind, raws, ls, ws, mds, i]
+
+
+def probe_ctor(tmp, weighted, hm0, bad, rs):
+    from hypergraphx import MultiplexHypergraph
+    kind, raws, ls, ws, mds, i = bad
+    edges = [tuple(tmp.N(x, rs) for x in r) for r in raws]
+    layers = [tmp.L(l, rs) for l in ls]
+    kw = {"weighted": bool(weighted)}
+    if hm0:
+        kw["hypergraph_metadata"] = tmp.hmd(hm0)
+    if kind == "embbad":
+        el = [(e, l) for e, l in zip(edges, layers)]
+        el[i] = rs.choice([[el[i][0], el[i][1]], el[i] + (1,), None, (el[i][0],)])
+        kw["edge_list"] = el
+    else:
+        kw["edge_list"], kw["edge_layer"] = edges, layers
+    if ws is not None:
+        kw["weights"] = [pyw(w, j % 2) for j, w in enumerate(ws)]
+    if mds is not None:
+        kw["edge_metadata"] = [tmp.md(m) for m in mds]
+    try:
+        MultiplexHypergraph(**kw)
+        return "ok"
+    except Exception:
+        return "rej"
+
+
+def w_ctor(weighted, hm, nm, form, raws, ls, ws, mds):
+    """the constructor as ONE model call (`construct` / `Spec.construct`)"""
+    nd = "N" if not nm else ";".join(hgxv.enc_list([n] + [x for p in md for x in p]) for n, md in nm)
+    m = "N" if mds is None else (";".join(hgxv.enc_list([x for p in md for x in p], "_") for md in mds) or "-")
+    return (f"ctor {1 if weighted else 0} {w_meta(hm)} {nd} {form} {hgxv.enc_lists(raws)} {hgxv.enc_list(ls)} "
+            f"{'N' if ws is None else hgxv.enc_list(ws)} {m}")
 
 
 def w_q(q, order=()):
@@ -1407,7 +1533,9 @@ def digest_queries(case, qrng):
     KS = [0, 0, 1, 1, 2, 2, 3, 4, 5]      # sizes / orders asked on their own: 0 and 1 (falsy / boundary), above the maximum
     qs = [["nodes"], ["nodesmeta"], ["edges"], ["edgesmeta"], ["weights"], ["layers"], ["inuse"], ["hmeta"], ["dsmeta"],
           ["weighted"], ["degseq", "a"], ["degseq", f"s{qrng.choice(KS)}"], ["degseq", f"o{qrng.choice(KS)}"],
-          ["aggnodes"], ["aggedges"], ["agghmeta"], ["aggweighted"]]
+          ["aggnodes"], ["aggedges"], ["agghmeta"], ["aggweighted"], ["edgetable"], ["adjtable"]]
+    if LAYERS_ORDERABLE[case["labeling"]]:
+        qs.append(["hashview"])
     BOTH = ["b00", "b01", "b10", "b12", "b21"]
     if qrng.random() < 0.4:
         qs.append(["degseq", qrng.choice(BOTH)])
@@ -1432,7 +1560,7 @@ def digest_queries(case, qrng):
 # oracle-only questions (the aggregate in the statement's words); asked of the real object and the oracle
 ORACLE_ONLY = [["aggkeys"], ["aggweights"]]
 # asked of the real object and the Lean model only (the statement does not pin them down)
-MODEL_ONLY = {"aggedges", "agghmeta", "dumpkeys"}
+MODEL_ONLY = {"aggedges", "agghmeta", "dumpkeys", "edgetable", "adjtable"}
 
 
 def run_case(ctx, drv, case):
@@ -1483,6 +1611,16 @@ def _run_case(ctx, drv, case):
         if ctor is not None:
             nm, raws, ls, ws, mds, _ = ctor
             pre = [["addnode", x, md] for x, md in nm] + [["addedges", raws, ls, ws, mds]]
+        # extension round: constructor calls that must be refused (no object), compared with `construct = none` of the model
+        prs = random.Random(zlib.crc32(json.dumps(["probe", weighted, hm0, ctor, case["ops"][:2], sty]).encode()))
+        if prs.random() < 0.3:
+            bad = bad_ctor(case, prs)
+            a = probe_ctor(Real(lab, weighted, hm0, None, sty), weighted, hm0, bad, prs)
+            lines.append(w_ctor(weighted, hm0, [], f"embbad{bad[5]}" if bad[0] == "embbad" else "sep", bad[1], bad[2], bad[3], bad[4]))
+            real_ans.append(a)
+            info["ctor_refused"] = info.get("ctor_refused", 0) + 1
+            if a != "rej":
+                return "violation", f"the constructor accepted malformed arguments {bad}", info
         try:
             real = Real(lab, weighted, hm0, ctor, sty)
         except Exception as ex:
@@ -1490,10 +1628,14 @@ def _run_case(ctx, drv, case):
         info["stats"] = real.stats
         for op in pre:
             o = orc.apply(op)
-            lines.append(w_op(op))
-            real_ans.append("ok")
             if o != "ok":
                 problems.append(("violation", "constructor accepted a batch the map rejects"))
+        if ctor is not None:       # the constructor is ONE call of the model
+            lines.append(w_ctor(weighted, hm0, ctor[0], "emb" if ctor[5] else "sep", ctor[1], ctor[2], ctor[3], ctor[4]))
+            real_ans.append("ok")
+        elif prs.random() < 0.5:   # no edge_list: the model's constructor must give the empty object of `new`
+            lines.append(w_ctor(weighted, hm0, [], "abs", [], [], None, None))
+            real_ans.append("ok")
         seen_keys = set(k for k in orc.E)
         steps = [None] + case["ops"]
 
@@ -1554,8 +1696,13 @@ def _run_case(ctx, drv, case):
                 if kind in ("hgx", "expose", "live"):
                     lines.append("reload")
                     real_ans.append("ok")
-                elif kind in ("json", "rebuild"):
-                    lines.append(f"new {1 if orc_new.w else 0} {w_meta([] if kind == 'json' else sorted(orc.hm.items()))}")
+                elif kind == "rebuild":      # the constructor fed with the getters' results: one `ctor` call of the model
+                    b = calls[-1]
+                    lines.append(w_ctor(orc_new.w, sorted(orc.hm.items()), [[c[1], c[2]] for c in calls[:-1]],
+                                        "emb" if rs.random() < 0.5 else "sep", b[1], b[2], b[3], b[4]))
+                    real_ans.append("ok")
+                elif kind == "json":
+                    lines.append(f"new {1 if orc_new.w else 0} {w_meta([])}")
                     real_ans.append("ok")
                     for c in calls:
                         lines.append(w_op(c))
@@ -1696,6 +1843,7 @@ def evaluate(ctx, drv, case, do_shrink=True):
     ctx.count("objects_through_save_load_pickle_copy", info["via"])
     ctx.count("accepted_calls_on_such_objects", info["after_via"])
     ctx.count("rejected_insertions_naming_an_unregistered_layer", info["rej_fresh_layer"])
+    ctx.count("constructor_calls_refused", info.get("ctor_refused", 0))
     for k, v in info["stats"].items():
         ctx.count(k, v)
     ctx.count(f"labeling_{case['labeling']}")
